@@ -166,8 +166,11 @@ func (e WorkloadGenerator) generateDeltasOndemand(
 
 	if len(addresses) == 0 {
 		if isReq {
-			// We need to respond for requests, even if we have nothing to respond with
-			return make(model.Resources, 0), nil, model.XdsLogDetails{}, false, nil
+			// We need to respond for requests, even if we have nothing to respond with.
+			// This is a delta response like any other of this generator (usedDelta): nothing was found missing, so
+			// nothing is removed. Reporting usedDelta=false would make the caller treat it as a full state-of-the-world
+			// answer and list every other name the client is still subscribed to as removed (e.g. on an unsubscribe-only request).
+			return make(model.Resources, 0), nil, model.XdsLogDetails{}, true, nil
 		}
 		// For NOP pushes, no need
 		return nil, nil, model.XdsLogDetails{}, false, nil
